@@ -115,6 +115,8 @@ pub struct Shared {
     pub log: Vec<Log>,
     pub notify: Option<Arc<tokio::sync::Notify>>,
     pub max_read_capacity_seen: usize,
+    /// some scripted data chunk did not fit into the capacity offered by the caller and was delivered in pieces
+    pub clipped: bool,
 }
 
 #[derive(Debug)]
@@ -162,6 +164,9 @@ impl AsyncRead for Transport {
                 let n = d.len().min(buf.remaining());
                 s.max_read_capacity_seen = s.max_read_capacity_seen.max(buf.remaining());
                 let rest = d.split_off(n);
+                if !rest.is_empty() {
+                    s.clipped = true;
+                }
                 buf.put_slice(&d);
                 s.delivered.push(d);
                 if !rest.is_empty() {
